@@ -65,6 +65,10 @@ func hsVariants() []hsVariant {
 			}
 		}
 	}
+	// near misses of the accept value: base64 is case-sensitive, and the whole value must match
+	for _, ac := range []string{"swapcase", "truncated", "suffixed", "lower"} {
+		vs = append(vs, hsVariant{"status=101 upgrade=\"websocket\" accept=" + ac, 101, "websocket", ac, id, 0, 0})
+	}
 	for _, o := range [][3]int{{0, 2, 1}, {1, 0, 2}, {1, 2, 0}, {2, 0, 1}, {2, 1, 0}} {
 		vs = append(vs, hsVariant{fmt.Sprintf("order=%v", o), 101, "websocket", "right", o, 0, 0})
 	}
@@ -93,6 +97,31 @@ func (v hsVariant) render(key string) []byte {
 		hdrs[2] = [2]string{"Sec-WebSocket-Accept", acceptFor(key)}
 	case "wrong":
 		hdrs[2] = [2]string{"Sec-WebSocket-Accept", acceptFor(key + "x")}
+	case "swapcase", "lower", "truncated", "suffixed":
+		right := acceptFor(key)
+		near := right
+		switch v.accept {
+		case "swapcase":
+			near = strings.Map(func(r rune) rune {
+				switch {
+				case r >= 'a' && r <= 'z':
+					return r - 32
+				case r >= 'A' && r <= 'Z':
+					return r + 32
+				}
+				return r
+			}, right)
+		case "lower":
+			near = strings.ToLower(right)
+		case "truncated":
+			near = right[:len(right)-2] + "="
+		case "suffixed":
+			near = right + "A"
+		}
+		if near == right {
+			near = acceptFor(key + "x") // (a value without letters: cannot happen with 27 base64 symbols in practice)
+		}
+		hdrs[2] = [2]string{"Sec-WebSocket-Accept", near}
 	}
 	var sb strings.Builder
 	fmt.Fprintf(&sb, "HTTP/1.1 %d %s\r\n", v.status, text)
@@ -507,7 +536,7 @@ func C18(tier string) *engine.Report {
 		d.Budget = 25 * time.Minute
 	}
 	tot.Add(d.Run(), rep)
-	tot.Fill(rep, "blocking/async x 46 response variants (full product of status x Upgrade x accept; header orders, letter cases, optional whitespace around the conforming response) x 0/1/2 piggy-backed frames; deviations: every single cut of response+frames, a second cut on a grid of 8, server close after the first segment, a preceding failed / dropped handshake on the same stream; "+
+	tot.Fill(rep, "blocking/async x 50 response variants (full product of status x Upgrade x accept; near misses of the accept value: case-swapped, lower-cased, truncated, suffixed; header orders, letter cases, optional whitespace around the conforming response) x 0/1/2 piggy-backed frames; deviations: every single cut of response+frames, a second cut on a grid of 8, server close after the first segment, a preceding failed / dropped handshake on the same stream; "+
 		"the raw server is lock-stepped with the client through SIOCOUTQ/FIONREAD; every case is a real TCP handshake", d.MaxDeviations)
 	rep.Assumptions = append(rep.Assumptions, "SIOCOUTQ==0 on the server socket and FIONREAD==0 on the client socket mean the client has consumed the segment")
 	return rep
